@@ -39,7 +39,7 @@ def puzzlesOf : Sexp → List Sexp
   | .pair spend nxt => (match extract5 spend with | some (_, puzzle, _, _, _) => [puzzle] | none => []) ++ puzzlesOf nxt
   | .atom _ => []
 
-theorem extract5_allBytes {spend parent puzzle amount sol ext : Sexp} (h : extract5 spend = some (parent, puzzle, amount, sol, ext))
+theorem extract5_parent_amount_allBytes {spend parent puzzle amount sol ext : Sexp} (h : extract5 spend = some (parent, puzzle, amount, sol, ext))
     (hb : spend.AllBytes) : parent.AllBytes ∧ amount.AllBytes := by
   unfold extract5 at h
   split at h
@@ -80,7 +80,7 @@ theorem nativeLoop_inv (env : Env) (puz : Nat → RunRes) (Q : Bundle → PState
       obtain ⟨⟨⟨r1, s1⟩, m2⟩, h1, h⟩ := bind_ok h
       simp only at h1 h
       exact ih (i + 1) r1 s1 (n - 1) m2 ret' st' m' hab.2 h
-        (hspend _ _ _ _ _ _ _ _ _ _ _ (hexec ret st p.1 hq) (extract5_allBytes he hab.1).2 h1)
+        (hspend _ _ _ _ _ _ _ _ _ _ _ (hexec ret st p.1 hq) (extract5_parent_amount_allBytes he hab.1).2 h1)
 
 /-- the spends pushed by the native loop carry the tree hashes of the revealed puzzles, in order -/
 theorem nativeLoop_puzzleHashes (env : Env) (puz : Nat → RunRes) :
